@@ -61,6 +61,8 @@ func c12Menu() []c12Req {
 		{Name: "rendezvous", Text: `{meet a{id}}`},
 		{Name: "unbound-field", Text: `{a{ghost id} b{ghost}}`, Abstract: true},
 		{Name: "unbound-field-in-list", Text: `{as{id ghost} ghost}`, Abstract: true},
+		// default values are printed on the request path (introspection)
+		{Name: "introspect-defaults", Text: `{__type(name:"Filter"){inputFields{name defaultValue}} q: __type(name:"Query"){fields{name args{name defaultValue}}} __schema{directives{name args{defaultValue}}}}`},
 	}
 }
 
@@ -81,6 +83,14 @@ func c12AddSubscription(root *ggql.Root) {
 	}
 }
 
+// c12RefusedLoad: the last thing the root did before the requests was to refuse a load at validation (an object that does not
+// satisfy the interface it claims): whatever mode loading puts the root in must be over when it returns.
+func c12RefusedLoad(root *ggql.Root) {
+	if err := root.ParseString("type Bad7 implements Named { zz: Int }\ndirective @bad7(n: Int = 1) on OBJECT\n"); err == nil {
+		panic(core.EngineError{Msg: "C12: the load meant to be refused was accepted"})
+	}
+}
+
 func c12Cfgs() []c12Cfg {
 	return []c12Cfg{
 		{"FS/byname-cold", func(s *world.Schema) world.Config { return world.Config{Strat: world.FS, Bind: world.BindByName, Schema: s} }, 0, nil},
@@ -89,6 +99,7 @@ func c12Cfgs() []c12Cfg {
 		{"RS", func(s *world.Schema) world.Config { return world.Config{Strat: world.RS, Schema: s} }, 0, nil},
 		{"AS", func(s *world.Schema) world.Config { return world.Config{Strat: world.AS, Schema: s} }, 0, nil},
 		{"RS/root-type-added-by-AddTypes", func(s *world.Schema) world.Config { return world.Config{Strat: world.RS, Schema: s} }, 0, c12AddSubscription},
+		{"RS/after-a-refused-load", func(s *world.Schema) world.Config { return world.Config{Strat: world.RS, Schema: s} }, 0, c12RefusedLoad},
 	}
 }
 
